@@ -86,7 +86,7 @@ Coordinate = namedtuple("Coordinate", ("values", "units", "resolution"))
 def _norm_anchor(anchor: GeoboxAnchor) -> Union[AnchorEnum, XY[float]]:
     if isinstance(anchor, AnchorEnum):
         return anchor
-    if isinstance(anchor, (float, int)):
+    if isinstance(anchor, Real):  # int, float, numpy scalars
         if anchor == 0:
             return AnchorEnum.EDGE
         if anchor == 0.5:
